@@ -266,6 +266,8 @@ impl WorldA {
     }
 
     pub fn new(cfg: &Cfg) -> WorldA {
+        // iteration order of the server's connection table is part of the run seed (hook H8)
+        renet::verif::set_hash_seed(cfg.get("hseed"));
         let sch = chans_from_cfg(cfg, "sch");
         let cch = chans_from_cfg(cfg, "cch");
         let avail = cfg.get("avail");
@@ -472,6 +474,7 @@ pub fn gen_cfg(family: &str, rng: &mut Rng) -> Cfg {
         _ => *rng.pick(&[1u64, 1, 1, 2, 2, 3]),
     };
     cfg.set("ncl", ncl);
+    cfg.set("hseed", rng.next() >> 8);
     let avail = match fam {
         Fam::Budget => *rng.pick(&[0u64, 500, 1199, 1200, 1201, 2400, 3000, 5000, 10_000, 60_000]),
         _ => *rng.pick(&[1200u64, 2400, 2400, 5000, 10_000, 60_000, 60_000, 60_000, 4 << 20]),
